@@ -77,18 +77,24 @@ impl<T: Qcow2IoOps> Qcow2Dev<T> {
     // if we are running out of reftable, allocate more clusters and replace
     // current refcount table with new one
     //
-    // All dirty refblock tables need to be flushed before flushing out the new
-    // reftable.
+    // The new table is written as a copy of the table on disk plus the
+    // entry of one new refblock, which holds the refcounts of itself and of
+    // the new table. Entries which have been updated in ram only stay dirty
+    // in `grown_rt`, and reach the new table with the next flush, after the
+    // refblocks they point to, as usual.
+    //
+    // Returns the old table's position; it has to be released by the caller
+    // after the reftable lock is dropped (free_clusters() takes it).
     //
     // Very slow code path.
     async fn grow_reftable(
         &self,
         reftable: &LockWriteGuard<RefTable>,
         grown_rt: &mut RefTable,
-    ) -> Qcow2Result<()> {
+    ) -> Qcow2Result<(u64, usize)> {
         let info = &self.info;
         let new_rt_clusters = grown_rt.cluster_count(info);
-        if new_rt_clusters >= info.rb_entries() - 1 {
+        if new_rt_clusters >= info.rb_slice_entries() as usize - 1 {
             // 1 entry stays free so we can allocate this refblock by putting its refcount into
             // itself
             // TODO: Implement larger allocations
@@ -96,7 +102,7 @@ impl<T: Qcow2IoOps> Qcow2Dev<T> {
                 "The reftable needs to grow to {} bytes, but we can allocate only {} -- try \
                      increasing the cluster size",
                 new_rt_clusters * info.cluster_size(),
-                (info.rb_entries() - 1) * info.cluster_size(),
+                (info.rb_slice_entries() as usize - 1) * info.cluster_size(),
             )
             .into());
         }
@@ -104,15 +110,16 @@ impl<T: Qcow2IoOps> Qcow2Dev<T> {
         // Allocate new reftable, put its refcounts in a completely new refblock
         let old_rt_offset = reftable.get_offset().unwrap();
         let old_rt_clusters = reftable.cluster_count(info);
+        let old_rt_entries = reftable.entries();
 
         let rb_size = 1 << info.rb_slice_bits;
         let mut new_refblock = RefBlock::new(info.refcount_order(), rb_size, None);
 
+        // the first cluster the old table can't cover, nothing is there
         let refblock_offset =
-            (reftable.entries() as u64) << (info.rb_index_shift + info.cluster_shift);
+            (old_rt_entries as u64) << (info.rb_index_shift + info.cluster_shift);
         new_refblock.set_offset(Some(refblock_offset));
         let rt_offset = refblock_offset + info.cluster_size() as u64;
-        grown_rt.set_offset(Some(rt_offset));
 
         // Reference for the refblock
         new_refblock.increment(0).unwrap();
@@ -121,39 +128,52 @@ impl<T: Qcow2IoOps> Qcow2Dev<T> {
             new_refblock.increment(i).unwrap();
         }
 
-        let cls = HostCluster(refblock_offset);
+        // the table as it is on disk now
+        let mut disk_rt = RefTable::new(
+            Some(rt_offset),
+            grown_rt.byte_size(),
+            info.block_size_shift,
+        );
+        {
+            let len = reftable.byte_size();
+            let buf = unsafe { std::slice::from_raw_parts_mut(disk_rt.as_mut_ptr(), len) };
+            if self.call_read(old_rt_offset, buf).await? != len {
+                return Err("short read of refcount table".into());
+            }
+        }
+        disk_rt.set(old_rt_entries, RefTableEntry(refblock_offset));
 
-        let rb_before = self.call_fallocate(
-            cls.rb_slice_host_start(info),
-            (refblock_offset - cls.rb_slice_host_start(info))
-                .try_into()
-                .unwrap(),
-            Qcow2OpsFlags::FALLOCATE_ZERO_RANGE,
-        );
+        // the new refblock's first slice, zeros in the rest of its cluster
         let rb = self.flush_table(&new_refblock, 0, new_refblock.byte_size());
-        let rb_after = self.call_fallocate(
-            refblock_offset + rb_size as u64,
-            cls.rb_slice_host_end(info) as usize - refblock_offset as usize - rb_size,
-            Qcow2OpsFlags::FALLOCATE_ZERO_RANGE,
-        );
-        let (res0, res1, res2) = futures::join!(rb_before, rb, rb_after);
+        let rb_after = async {
+            if rb_size < info.cluster_size() {
+                self.call_fallocate(
+                    refblock_offset + rb_size as u64,
+                    info.cluster_size() - rb_size,
+                    Qcow2OpsFlags::FALLOCATE_ZERO_RANGE,
+                )
+                .await
+            } else {
+                Ok(())
+            }
+        };
+        let rt = self.flush_table(&disk_rt, 0, disk_rt.byte_size());
+        let (res0, res1, res2) = futures::join!(rb, rb_after, rt);
         if res0.is_err() || res1.is_err() || res2.is_err() {
-            return Err("Failed to flush refcount block or discard other parts".into());
+            return Err("Failed to write new refcount block or refcount table".into());
         }
 
-        //todo: write all dirty refcount_block
+        // both have to be on disk before the header points to them
+        self.call_fsync(0, usize::MAX, 0).await?;
 
-        grown_rt.set_refblock_offset(reftable.entries(), refblock_offset);
-        self.flush_top_table(grown_rt).await?;
+        grown_rt.set_offset(Some(rt_offset));
+        grown_rt.set(old_rt_entries, RefTableEntry(refblock_offset));
 
         // write header
         {
             let mut h = self.header.write().await;
 
-            h.set_reftable(
-                grown_rt.get_offset().unwrap(),
-                grown_rt.cluster_count(&self.info),
-            )?;
+            h.set_reftable(rt_offset, new_rt_clusters)?;
 
             self.commit_header(&mut h, |h| {
                 h.set_reftable(old_rt_offset, old_rt_clusters).unwrap()
@@ -161,9 +181,7 @@ impl<T: Qcow2IoOps> Qcow2Dev<T> {
             .await?;
         }
 
-        self.free_clusters(old_rt_offset, old_rt_clusters).await?;
-
-        Ok(())
+        Ok((old_rt_offset, old_rt_clusters))
     }
 
     async fn get_reftable_entry(&self, rt_idx: usize) -> RefTableEntry {
@@ -357,14 +375,34 @@ impl<T: Qcow2IoOps> Qcow2Dev<T> {
 
     /// make sure reftable entry points to valid refcount block
     async fn ensure_refblock_offset(&self, cls: &HostCluster) -> Qcow2Result<RefTableEntry> {
+        // position of the table replaced by growing it
+        let mut old_rt = None;
+        let res = self.__ensure_refblock_offset(cls, &mut old_rt).await;
+
+        // Whatever happened after the table was replaced, its old clusters
+        // are released. Not before the reftable lock is dropped:
+        // free_clusters() takes it.
+        if let Some((old_rt_offset, old_rt_clusters)) = old_rt {
+            self.free_clusters(old_rt_offset, old_rt_clusters).await?;
+        }
+        res
+    }
+
+    async fn __ensure_refblock_offset(
+        &self,
+        cls: &HostCluster,
+        old_rt: &mut Option<(u64, usize)>,
+    ) -> Qcow2Result<RefTableEntry> {
         let info = &self.info;
 
         let rt_index = cls.rt_index(info);
         {
             let reftable = self.reftable.read().await;
-            let rt_entry = reftable.get(rt_index);
-            if !rt_entry.is_zero() {
-                return Ok(rt_entry);
+            if reftable.in_bounds(rt_index) {
+                let rt_entry = reftable.get(rt_index);
+                if !rt_entry.is_zero() {
+                    return Ok(rt_entry);
+                }
             }
         }
 
@@ -381,11 +419,27 @@ impl<T: Qcow2IoOps> Qcow2Dev<T> {
             cls.0
         );
         if !reftable.in_bounds(rt_index) {
-            let mut grown_rt = reftable.clone_and_grow(rt_index, rt_clusters, info.cluster_size());
-            if !grown_rt.is_update() {
-                self.grow_reftable(&reftable, &mut grown_rt).await?;
-            }
+            let mut grown_rt = reftable.clone_and_grow(
+                rt_index,
+                rt_clusters,
+                info.cluster_size(),
+                1 << info.block_size_shift,
+            );
+            let replaced = if !grown_rt.is_update() {
+                Some(self.grow_reftable(&reftable, &mut grown_rt).await?)
+            } else {
+                None
+            };
+            // The header points to the new table from here on, there is no
+            // way back.
             *reftable = grown_rt;
+            if replaced.is_some() {
+                // The header has to stop pointing to the old table before
+                // its clusters may be reused, and to point to the new one
+                // before anything counted in the new refblock is written.
+                self.call_fsync(0, usize::MAX, 0).await?;
+                *old_rt = replaced;
+            }
         }
 
         // Retry before allocating, maybe something has changed in the meantime
